@@ -51,6 +51,9 @@ type Src struct{ Text string }
 func (s *Src) Pos() token.Pos { return token.NoPos }
 func (s *Src) End() token.Pos { return token.NoPos }
 
+// SrcNode returns a source node carrying text.
+func SrcNode(text string) ast.Node { return &Src{Text: text} }
+
 type interp struct{}
 
 func (interp) LoadExpr(n ast.Node) string {
